@@ -330,7 +330,8 @@ def dep_initiator_peer(w, data):
         w.throw(o)
         if o == 'x':
             raise nfc.clf.TimeoutError('scripted')
-        return out(bytearray([6, 0xD5, 0x07, pfb & 3]) + (H('0140') if o == 'd' else H('0000')))
+        pay = bytearray(ADV[o][1]) if o in ADV else (H('0140') if o == 'd' else H('0000'))
+        return out(bytearray([4 + len(pay), 0xD5, 0x07, pfb & 3]) + pay)
     if code == 0x08:
         return out(H('03 d509'))
     if code == 0x0A:
@@ -348,7 +349,8 @@ def dep_target_peer(w, data):
     if o == 'x':
         raise nfc.clf.TimeoutError('scripted')
     pni = ((data[3] & 3) + 1) % 4
-    return bytearray([6, 0xD4, 0x06, pni]) + (H('0140') if o == 'd' else H('0000'))
+    pay = bytearray(ADV[o][1]) if o in ADV else (H('0140') if o == 'd' else H('0000'))
+    return bytearray([4 + len(pay), 0xD4, 0x06, pni]) + pay
 
 
 def canned_response(ttype, target, data):
@@ -670,6 +672,53 @@ class LiveLLC(nfc.llcp.llc.LogicalLinkController):
         return self._wrapped(super(LiveLLC, self).run_as_target, terminate)
 
 
+# ------------------------------------------------------------------ adversarial but well-formed LLCP PDUs of the scripted peer
+def _hdr(dsap, ptype, ssap):
+    return bytes([(dsap << 2) | (ptype >> 2), ((ptype & 3) << 6) | ssap])
+
+
+def _agf(*pdus):
+    return _hdr(0, 2, 0) + b''.join(bytes([len(x) >> 8, len(x) & 255]) + x for x in pdus)
+
+
+def _adversarial_pdus():
+    """(description, bytes) in a FIXED order; the case stores the one-letter code of an entry"""
+    names = [('non-ascii', b'urn:nfc:sn:caf\xe9'), ('non-utf8', b'\xff\xfe\x80'), ('nul', b'urn:nfc:sn:a\x00b'), ('empty', b''),
+             ('known', b'urn:nfc:sn:test')]
+    out = []
+    for what, sn in names:
+        tlv = bytes([6, len(sn)]) + sn
+        c_name = _hdr(1, 4, 32) + tlv                 # CONNECT to the service discovery SAP (connect by name)
+        c_sap = _hdr(16, 4, 33) + tlv                 # CONNECT to a (listening) SAP carrying a service name
+        sdreq = _hdr(1, 9, 1) + bytes([8, 1 + len(sn), 7]) + sn      # SNL with an SDREQ
+        out += [('CONNECT by name, %s name' % what, c_name), ('CONNECT to SAP 16, %s name' % what, c_sap),
+                ('SNL SDREQ, %s name' % what, sdreq),
+                ('AGF[CONNECT by name, CONNECT to SAP, SDREQ], %s name' % what, _agf(c_name, c_sap, sdreq))]
+    for reason in (0x05, 0x21, 0xFF):
+        out.append(('DM reserved reason %02x' % reason, _hdr(32, 7, 16) + bytes([reason])))
+    out.append(('AGF[DM reserved reasons]', _agf(*[_hdr(32, 7, 16) + bytes([r]) for r in (0x04, 0x12, 0x80)])))
+    frmr = [_hdr(32, 8, 16) + bytes([(n << 4) | 12, 0x11, 0x22, 0x33]) for n in range(16)]
+    out += [('FRMR flags 0', frmr[0]), ('FRMR flags F', frmr[15]),
+            ('AGF[FRMR flags 0..7]', _agf(*frmr[:8])), ('AGF[FRMR flags 8..F]', _agf(*frmr[8:]))]
+    pax = _hdr(0, 1, 0) + bytes([1, 1, 0x13, 2, 2, 0x07, 0xFF, 4, 1, 0x64])
+    out += [('PAX mid-link', pax), ('AGF[PAX]', _agf(pax)),
+            ('AGF with a zero-length entry', _hdr(0, 2, 0) + b'\x00\x00'),
+            ('AGF with zero-length entries and a SYMM', _agf(b'', b'', b'\x00\x00', b'')),
+            ('AGF empty', _hdr(0, 2, 0)),
+            ('unknown ptype 11', _hdr(16, 11, 32) + b'\x01\x02'), ('unknown ptype 15', _hdr(0, 15, 0)),
+            ('AGF[unknown ptypes]', _agf(_hdr(16, 11, 32), _hdr(1, 15, 1) + b'\x00')),
+            ('CC to an unconnected SAP', _hdr(32, 6, 16)), ('I PDU without connection', _hdr(16, 12, 32) + b'\x00data'),
+            ('RR without connection', _hdr(16, 13, 32) + b'\x00'), ('UI to SAP 1', _hdr(1, 3, 32) + b'x'),
+            ('CONNECT with truncated TLV', _hdr(16, 4, 32) + b'\x06\x05ab')]
+    return out
+
+
+ADV_CODES = [c for c in 'ABCDEFGHJKLMNOPQRSTUVWXYZabcfghjklnoprtuvwyz0123456789@#$%&*+=<>?' if c not in 'sdxiIemqcku']
+ADV = {}
+for _i, (_what, _b) in enumerate(_adversarial_pdus()):
+    ADV[ADV_CODES[_i]] = (_what, _b)
+
+
 def _peer_exchange(w, send_data):
     """the scripted remote peer of the live llc part: answers SYMM, disconnects or is gone; in 'busy'
     cases it is also the application that keeps the next datagram queued (like a sender thread)"""
@@ -678,6 +727,8 @@ def _peer_exchange(w, send_data):
         w.feed()
     o = w.peer_answer()
     w.throw(o)                               # the reader's transport fails (family of IOError)
+    if o in ADV:
+        return bytearray(ADV[o][1])
     if o == 'd':
         return bytearray(b'\x01\x40')       # DISC
     if o == 'x':
@@ -901,6 +952,11 @@ def build_connect_options(w, case):
         def f(arg):
             v, c = w.cbvalue()
             w.ev.append('%s:%s:%s' % (name, block, c))
+            if w.live in ('llc', 'dep') and case.get('srv') and block == 'llcp' and name == 'connect':
+                # the application offers a connection-mode service (SAP 16, 'urn:nfc:sn:test')
+                w.srv = arg.socket(nfc.llcp.DATA_LINK_CONNECTION)
+                arg.bind(w.srv, b'urn:nfc:sn:test')
+                arg.listen(w.srv, 2)
             if w.live == 'llc' and case.get('busy') and block == 'llcp' and name == 'connect':
                 w.llc = arg
                 w.sock = arg.socket(nfc.llcp.LOGICAL_DATA_LINK)
